@@ -379,14 +379,6 @@ def handle (op : String) (args impl : List String) : Option String :=
       else none
     | _ => none
   | some (ctx, e, res) =>
-    -- day offsets of dated ranges beyond what chrono can represent (open finding `dated-offset-beyond-calendar`, listed under
-    -- C01) also show as iterator-vs-schedule failures: attribute them to that class
-    (fun (v : Option String) => v.map (fun v =>
-      if v.startsWith "fail" && (v.splitOn "class=").length == 1 && OH.Spec.exprBigShift e then
-        match v.splitOn " " with
-        | f :: c :: rest => joinSp (f :: c :: "class=dated-offset-beyond-calendar" :: rest)
-        | _ => v
-      else v)) <|
     if res == ["skip-unrepresentable"] then some "ok skip-unrepresentable" else
     if op.startsWith "c02." then handleC02 args ctx e res
     else if op.startsWith "c03." then handleC03 op args ctx e res
